@@ -298,6 +298,8 @@ def decode_s(enc, valuation, special, rnd=None, reps=True):
         return enc["s"]
     if v in special:
         return special[v]
+    if v in DEFAULT_VALUES:
+        return DEFAULT_VALUES[v]()
     ctors = PYCLASSES[valuation[v]][2]
     return (rnd.choice(ctors) if rnd is not None and reps else ctors[0])()
 
@@ -340,6 +342,20 @@ class EncoderS(Encoder):
 
 
 DEFAULT_LEAF = {"k": "L", "v": "$default", "e": 90, "s": "<default>"}
+# defaults with a value of their own (spec: DefLeaves); "edict" is the empty dictionary
+DEFAULT_VALUES = {"$d:none": lambda: None, "$d:zero": lambda: 0, "$d:estr": lambda: "",
+                  "$d:false": lambda: False, "$d:elist": lambda: []}
+DEFAULT_LEAVES = {"none": {"k": "L", "v": "$d:none", "e": 94, "s": "None"}}
+
+
+def default_object(dv, obj):
+    """the Python default for the value kind dv of the specification (obj: the opaque object)"""
+    if dv == "obj":
+        return obj
+    if dv == "edict":
+        return {}
+    return DEFAULT_VALUES["$d:" + dv]()
+
 EMPTY = {"k": "D", "m": {}}
 
 
